@@ -1,13 +1,20 @@
 package engine
 
 import (
+	"time"
+
 	"github.com/sanonone/kektordb/pkg/core/distance"
+	"github.com/sanonone/kektordb/pkg/core/hnsw"
 	rt "github.com/sanonone/kektordb/pkg/zzverifrt"
 )
 
 func zzC13Prelude() *Engine {
 	e := zzOpen()
-	rt.Assert(e.VCreate("i0", distance.Euclidean, 2, 4, distance.Float32, "", nil, nil, nil) == nil, "prelude: VCreate succeeds")
+	var mem *hnsw.MemoryConfig
+	if rt.Param("MEMORY", 0) == 1 { // memory-enabled index: searches run the decay pass over their hits
+		mem = &hnsw.MemoryConfig{Enabled: true, DecayHalfLife: hnsw.Duration(100 * time.Second)}
+	}
+	rt.Assert(e.VCreate("i0", distance.Euclidean, 2, 4, distance.Float32, "", nil, nil, mem) == nil, "prelude: VCreate succeeds")
 	// the node already carries a counter and a key: a stale read-modify-write then visibly reverts them
 	rt.Assert(e.VAdd("i0", "a", []float32{1}, map[string]any{"base": "x", "_access_count": 5.0, "ka": "0", "kb": "0"}) == nil, "prelude: VAdd succeeds")
 	return e
